@@ -53,6 +53,7 @@ structure Cfg where
   funs : List (String × List Cmd)       -- latest definition first
   args : List String                    -- positional parameters of the running function
   saved : List (String × String)        -- values hidden by `local` in the running function, latest first
+  arr : String → List String            -- indexed arrays (the storage of slices), by name; an unset array is empty
 
 inductive Out
   | normal
@@ -71,6 +72,21 @@ def lookupFun (fs : List (String × List Cmd)) (name : String) : Option (List Cm
 def restore : List (String × String) → Store → Store
   | [], ρ => ρ
   | (x, v) :: rest, ρ => restore rest (ρ.set x v)
+
+/-- update of one array -/
+def aset (a : String → List String) (x : String) (v : List String) : String → List String := fun y => if y = x then v else a y
+
+/-- what `_sah arr i v d` does to the elements: store at `i`, filling a gap with the default value -/
+def sahSet {α : Type} (l : List α) (i : Nat) (v d : α) : List α :=
+  if i < l.length then l.set i v else l ++ List.replicate (i - l.length) d ++ [v]
+
+/-- what `_sch` does to the destination: element by element from the front, the rest stays -/
+def copyInto {α : Type} (src dst : List α) : List α := src ++ dst.drop src.length
+
+def natOf (k : Int) : Option Nat := if 0 ≤ k then some k.toNat else none
+
+/-- `${v:ls:ll}` -/
+def substrOf (s : String) (ls ll : Nat) : String := String.ofList ((s.toList.drop ls).take ll)
 
 def expandList (ρ : Store) : List String → Option (List String)
   | [] => some []
@@ -118,6 +134,43 @@ def stepSimple (l : Line) (c : Cfg) : Option (Out × Cfg) :=
       | some s => some (.normal, { c with out := c.out ++ [s] })
       | none => none
   | .exit1 => some (.exit 1, c)
+  -- slices: a counter names the arrays; `_sah`, `_sch`, `_ssh` are the helper routines of the script, taken as
+  -- primitives here (their text is fixed; what bash does with it is observed in every run)
+  | .dvcIncr =>
+      match (if c.ρ "_dvc" = "" then some 0 else asInt (c.ρ "_dvc")) with
+      | some k => some (.normal, { c with ρ := c.ρ.set "_dvc" (toString (wrap64 (k + 1))) })
+      | none => none
+  | .sahInit a i v =>
+      match expand c.ρ a, expand c.ρ v with
+      | some n, some w =>
+          some (.normal, { c with ρ := c.ρ.set "_c" (toString (max (c.arr n).length i)), arr := aset c.arr n (sahSet (c.arr n) i w "") })
+      | _, _ => none
+  | .sah a i v d =>
+      match expand c.ρ a, (expandInt c.ρ i).bind natOf, expand c.ρ v, expand c.ρ d with
+      | some n, some k, some w, some z =>
+          some (.normal, { c with ρ := c.ρ.set "_c" (toString (max (c.arr n).length k)), arr := aset c.arr n (sahSet (c.arr n) k w z) })
+      | _, _, _, _ => none
+  | .sliceLoad t name index =>
+      match expand c.ρ name, (expandInt c.ρ index).bind natOf with
+      | some n, some k => some (.normal, { c with ρ := c.ρ.set t ((c.arr n).getD k "") })
+      | _, _ => none
+  | .assignSliceLen n src =>
+      match expand c.ρ src with
+      | some a => some (.normal, { c with ρ := c.ρ.set n (toString (c.arr a).length) })
+      | none => none
+  | .assignStrLen n v => some (.normal, { c with ρ := c.ρ.set n (toString (c.ρ v).length) })
+  | .sch dst src =>
+      match expand c.ρ src with
+      | some a => some (.normal, { c with arr := aset c.arr (c.ρ dst) (copyInto (c.arr a) (c.arr (c.ρ dst))) })
+      | none => none
+  | .ssh v a b =>
+      match expand c.ρ v, expandInt c.ρ a, expandInt c.ρ b with
+      | some s, some x, some y =>
+          match natOf x, natOf (y - x + 1) with
+          | some ls, some ll =>
+              some (.normal, { c with ρ := ((c.ρ.set "_ls" (toString ls)).set "_ll" (toString ll)).set "_ret" (substrOf s ls ll) })
+          | _, _ => none
+      | _, _, _ => none
   | _ => none
 
 /-- what the caller sees when the body of a function ended with outcome `o` in configuration `c1` -/
@@ -270,7 +323,7 @@ def parse (ls : List Line) : Option (List Cmd) :=
   | some (cs, []) => some cs
   | _ => none
 
-def Cfg.init : Cfg := { ρ := fun _ => "", out := [], funs := [], args := [], saved := [] }
+def Cfg.init : Cfg := { ρ := fun _ => "", out := [], funs := [], args := [], saved := [], arr := fun _ => [] }
 
 def run (fuel : Nat) (ls : List Line) : Option (Out × List String) :=
   match parse ls with
